@@ -50,6 +50,19 @@ Bad06 == {[tree |-> Tree06(LayA, <<InsertE("title", StrL("x"), 1), InsertE("nope
                          [] n = "layouts/main" -> Tpl(Alias("base"), LayA)
                          [] n = "layouts/base" -> Tpl(NoUse, <<H("base"), Reserve("title", 1), Reserve("content", 1)>>)],
            page |-> "home", d |-> D0, tags |-> <<"c06", "layout-uses-layout">>]}
+         \* the layout's @use sits in a branch that is not taken, in a loop that runs zero times, after text, in the taken branch
+         \cup {[tree |-> [n \in {"layouts/main", "layouts/base", "home"} |->
+                           CASE n = "home" -> Tpl(Alias("main"), <<InsertE("title", StrL("x"), 1)>>)
+                             [] n = "layouts/main" -> Tpl(NoUse, lb)
+                             [] n = "layouts/base" -> Tpl(NoUse, <<H("base"), Reserve("title", 1)>>)],
+                 page |-> "home", d |-> d, tags |-> <<"c06", "layout-uses-layout", "nested">>] :
+               d \in DataSets06,
+               lb \in {<<If(<<Br(Var("show"), <<UseS(u, 1)>>)>>, NoElse, 1), H("<t>"), Reserve("title", 1)>> : u \in {Ref("layouts/base"), Alias("base")}}
+                    \cup {<<If(<<Br(Var("show"), <<H("y")>>)>>, <<UseS(Alias("base"), 1)>>, 1), Reserve("title", 1)>>,
+                           <<Each("q", Var("items"), <<UseS(Alias("base"), 1)>>, NoElse, 1), Reserve("title", 1)>>,
+                           <<Each("q", Var("items"), <<H("r")>>, <<UseS(Alias("base"), 1)>>, 1), Reserve("title", 1)>>,
+                           <<H("<t>"), Reserve("title", 1), UseS(Alias("base"), 1)>>,
+                           <<If(<<Br(BoolL(FALSE), <<If(<<Br(BoolL(TRUE), <<UseS(Alias("base"), 1)>>)>>, NoElse, 1)>>)>>, NoElse, 1), Reserve("title", 1)>>}}
 
 (* ------------------------------------ C07 ------------------------------------ *)
 CompPlain == <<H("<li>"), P(Var("name")), H("</li>")>>
@@ -57,10 +70,15 @@ CompDef == <<H("<d>"), Slot("", 1), H("</d>")>>
 CompNamed == <<If(<<Br(Var("big"), <<H("BIG")>>)>>, <<H("sm")>>, 1), Slot("head", 1), H("|"), P(Var("n")), H("|"), Slot("foot", 1)>>
 CompBoth == <<H("{"), Slot("", 1), H("/"), Slot("x", 1), H("/"), P(Var("n")), H("}")>>
 CompTwo == <<P(Var("a")), H("-"), P(Var("b")), H("-"), P(Var("c"))>>
-Comps07 == [n \in {"components/plain", "components/def", "components/named", "components/both", "components/two", "card"} |->
+\* components that assign: the assignment lives in the component's own scope (C04) and every use starts afresh (C07)
+CompSetter == <<Assign("t", StrL("in"), 1), H("("), P(Var("t")), H(")")>>
+CompBump == <<Assign("cnt", Bin("+", Var("cnt"), IntL(1)), 1), P(Var("cnt")), Slot("", 1)>>
+Comps07 == [n \in {"components/plain", "components/def", "components/named", "components/both", "components/two", "card",
+                   "components/setter", "components/bump"} |->
               CASE n = "components/plain" -> Tpl(NoUse, CompPlain) [] n = "components/def" -> Tpl(NoUse, CompDef)
                 [] n = "components/named" -> Tpl(NoUse, CompNamed) [] n = "components/both" -> Tpl(NoUse, CompBoth)
                 [] n = "components/two" -> Tpl(NoUse, CompTwo)
+                [] n = "components/setter" -> Tpl(NoUse, CompSetter) [] n = "components/bump" -> Tpl(NoUse, CompBump)
                 [] n = "card" -> Tpl(NoUse, <<H("card:"), P(Var("name"))>>)]
 Uses == {Comp(Alias("plain"), <<Arg("name", StrL("Ann"))>>, <<>>, 1), Comp(Alias("plain"), <<Arg("name", Var("who"))>>, <<>>, 1),
          Comp(Ref("components/plain"), <<Arg("name", Bin("+", Var("who"), StrL("!")))>>, <<>>, 1),
@@ -73,6 +91,15 @@ Uses == {Comp(Alias("plain"), <<Arg("name", StrL("Ann"))>>, <<>>, 1), Comp(Alias
          Comp(Alias("both"), <<Arg("n", StrL("c"))>>, <<Sl("", <<Comp(Alias("plain"), <<Arg("name", StrL("in"))>>, <<>>, 1)>>)>>, 1),
          Comp(Ref("card"), <<Arg("name", Var("who"))>>, <<>>, 1)}
 Data07 == <<[n |-> "who", v |-> S("Bo")], [n |-> "cnt", v |-> I(3)], [n |-> "xs", v |-> A(<<S("p"), S("q")>>)], [n |-> "yes", v |-> B(TRUE)]>>
+\* what a component assigns never reaches the page, the next use, or the next pass of a loop - with and without arguments / slots
+SetterUses == {Comp(Alias("setter"), <<>>, <<>>, 1), Comp(Alias("setter"), <<Arg("z", IntL(1))>>, <<>>, 1), Comp(Alias("setter"), <<Arg("t", StrL("arg"))>>, <<>>, 1)}
+BumpUses == {Comp(Alias("bump"), <<>>, <<>>, 1), Comp(Alias("bump"), <<Arg("z", IntL(1))>>, <<>>, 1), Comp(Alias("bump"), <<>>, <<Sl("", <<H("s"), P(Var("cnt"))>>)>>, 1),
+             Comp(Alias("bump"), <<Arg("cnt", IntL(10))>>, <<>>, 1)}
+Leak07 == {<<Assign("t", StrL("out"), 1), u, H("="), P(Var("t"))>> : u \in SetterUses}
+          \cup {<<u, H("="), P(Var("t"))>> : u \in SetterUses}
+          \cup {<<u1, H(","), u2, H("="), P(Var("cnt"))>> : u1 \in BumpUses, u2 \in BumpUses}
+          \cup {<<Each("x", Var("xs"), <<u, H(";")>>, NoElse, 1), P(Var("cnt"))>> : u \in BumpUses}
+          \cup {<<If(<<Br(Var("yes"), <<u>>)>>, NoElse, 1), P(Var("cnt"))>> : u \in BumpUses}
 Tree07(body) == [n \in DOMAIN Comps07 \cup {"home"} |-> IF n = "home" THEN Tpl(NoUse, body) ELSE Comps07[n]]
 \* one, two and three uses side by side; the same component several times with different arguments and slot bodies
 Pages07 == {<<H("A:"), u1, H(" B:"), u2>> : u1 \in Uses, u2 \in Uses}
@@ -81,6 +108,7 @@ Pages07 == {<<H("A:"), u1, H(" B:"), u2>> : u1 \in Uses, u2 \in Uses}
       \cup {<<Each("x", Var("xs"), <<Comp(Alias("def"), <<>>, <<Sl("", <<P(Var("x")), P(Dot(Var("loop"), "index"))>>)>>, 1)>>, NoElse, 1)>>}
       \cup {<<If(<<Br(Var("yes"), <<u>>)>>, <<H("no")>>, 1), If(<<Br(IntL(0), <<H("no")>>)>>, <<u>>, 1)>> : u \in Uses}
       \cup {<<Assign("name", StrL("outer"), 1), u, H("="), P(Var("name"))>> : u \in Uses}
+      \cup Leak07
 \* every argument is evaluated at the place of use: an argument never sees its sibling arguments, whatever their order
 TwoUses == {Comp(Alias("two"), <<Arg(k1, StrL("A")), Arg(k2, Bin("+", Var(k1), StrL("!"))), Arg(k3, Var(k2))>>, <<>>, 1) :
               k1 \in {"a", "b", "c"}, k2 \in {"a", "b", "c"}, k3 \in {"a", "b", "c"}}
